@@ -719,6 +719,68 @@ def growable_fields(P):
     return out
 
 
+def growth_summaries(P, grow):
+    """fid -> set of (parameter index, field): the function may (transitively) move the growable buffer `field` of an
+    object reachable from that parameter - it stores that field (realloc result / swap) of an object rooted at the
+    parameter, or hands an expression rooted at it to a callee that does.  Object-sensitive at the granularity of
+    parameters and field names (a helper that grows one DString, or pushes onto a stack, does not invalidate pointers
+    into another DString's text)."""
+    if hasattr(P, "_growsum"):
+        return P._growsum
+    fields = {fl for _, fl in grow}
+    summ = {}
+    funcs = [g for g in P.all_funcs if P.first_party(g)]
+    from .prog import single_assignment_locals
+
+    def root_param(g, e, depth=0):
+        e = strip(e)
+        while e is not None and e["k"] in ("MemberExpr", "ArraySubscriptExpr", "UnaryOperator"):
+            e = strip(e["c"][0])
+        if e is not None and e["k"] == "DeclRefExpr":
+            if e.get("dk") == "Parm":
+                idx = [i2 for i2, p in enumerate(g.params) if p[0] == e["n"]]
+                return idx[0] if idx else None
+            if e.get("dk") == "Var" and depth < 3:
+                init = single_assignment_locals(g).get(e["n"])
+                if init is not None:
+                    return root_param(g, init, depth + 1)
+        return None
+    for g in funcs:
+        gid = P.fid(g)
+        for x in g.walk():
+            if x["k"] == "BinaryOperator" and x["op"] == "=":
+                l = strip(x["c"][0])
+                if l is not None and l["k"] == "MemberExpr" and l["n"] in fields:
+                    r = root_param(g, l)
+                    if r is not None:
+                        summ.setdefault(gid, set()).add((r, l["n"]))
+            elif x["k"] == "CallExpr" and x.get("callee") in ("realloc", "free") and len(x["c"]) > 1:
+                a = strip(x["c"][1])
+                if a is not None and a["k"] == "MemberExpr" and a["n"] in fields:
+                    r = root_param(g, a)
+                    if r is not None:
+                        summ.setdefault(gid, set()).add((r, a["n"]))
+    changed = True
+    rounds = 0
+    while changed and rounds < 10:
+        changed = False
+        rounds += 1
+        for g in funcs:
+            gid = P.fid(g)
+            for c in g.calls():
+                h = P.resolve(g, c.get("callee") or "")
+                if h is None:
+                    continue
+                for (j2, fl) in list(summ.get(P.fid(h), ())):
+                    if j2 < len(c["c"]) - 1:
+                        r = root_param(g, c["c"][1 + j2])
+                        if r is not None and (r, fl) not in summ.get(gid, set()):
+                            summ.setdefault(gid, set()).add((r, fl))
+                            changed = True
+    P._growsum = summ
+    return summ
+
+
 def r_stale(P, chk):
     rid = "R-STALE"
     chk.rule(rid, "a local pointer derived from a realloc-grown buffer (X->F, &X->F[i], X->F + i) is not dereferenced after a call "
@@ -769,12 +831,20 @@ def r_stale(P, chk):
                 if not cal or c["i"] not in pos:
                     continue
                 args = [key(a) for a in c["c"][1:]]
-                if not any(a == base or a == root or a == "&" + base for a in args):
+                hit = [j for j, a in enumerate(args) if a == base or a == root or a == "&" + base]
+                if not hit:
+                    continue
+                if cal in ("free", "strlen", "strcmp", "memcpy", "memmove", "strncpy", "memset"):
+                    continue
+                h = P.resolve(f, cal)
+                if h is not None and P.first_party(h):
+                    # object-sensitive: the callee moves a growable buffer reachable from one of *these* arguments
+                    gs = growth_summaries(P, grow).get(P.fid(h), set())
+                    if any((j, fld) in gs for j in hit):
+                        inval.append(c)
                     continue
                 m = P.mods(f, cal)
                 if cal == "realloc" or (m is None) or (fld in (m or ())):
-                    if cal in ("free", "strlen", "strcmp", "memcpy", "memmove", "strncpy", "memset"):
-                        continue
                     inval.append(c)
             for x in f.walk():
                 if x["k"] == "BinaryOperator" and x["op"] == "=" and key(x["c"][0]) == base + "->" + fld and x["i"] in pos:
@@ -1736,8 +1806,8 @@ def r_stalelen(P, chk):
                          [y for y in f.walk() if y["k"] == "BinaryOperator" and y["op"] == "=" and key(y["c"][0]) == nm and y is not dnode and y["i"] in pos]
                 stale = None
                 for m in muts:
-                    if m is u:
-                        continue
+                    if m is u or any(y is m for y in walk(u)):
+                        continue        # the snapshot is an argument of (or feeds) the very call that changes the string
                     if f.cfg.dominates(dnode["i"], m["i"]) and _reaches(f, pos, m, u, redefs):
                         stale = m
                         break
